@@ -1,42 +1,65 @@
 (** Executable model of waddrmgr's in-memory caches next to its database rows
     (waddrmgr/scoped_manager.go, manager.go, sync.go, db.go) under database
     transactions that commit or roll back (walletdb.Update, wallet/createtx.go
-    dry run) - the state property C08 is about.
+    dry run, wallet/import.go ImportAccountDryRun) - the state property C08 is
+    about.
 
-    One key scope is modelled (the scoped managers of a Manager do not share
-    caches; the sync state belongs to the root manager).  Abstractions:
+    One key scope is modelled: the scoped managers of a Manager do not share
+    caches; the sync state, the birthday and the lock state belong to the root
+    manager.  (A history over two scopes is checked by running the model once
+    per scope on the operations of that scope plus the root manager's.)
+    Abstractions:
       - an address is identified with its derivation path ([Chain a b i]) or
-        with the imported key / script it was made from; the fields of a
-        ManagedAddress that are observable without private keys (account,
-        internal, imported) are functions of that identity, so the address
-        cache and the address bucket are sets;
+        with the imported key / script it was made from; account, branch and
+        imported-ness are functions of that identity.  What an address OBJECT
+        additionally records when it is built - its address type and the
+        master-key fingerprint of its derivation path (DerivationInfo) - is
+        kept with the object: the address cache is a map from addresses to
+        that record, the OnCommit closures carry the objects they will cache;
       - account names, block hashes and imported account keys (xpubs) are
         interned numbers; times are unix seconds ([Z]); heights are [Z] (int32
         wrap-around is outside the model); the manager itself is not
-        watch-only and stays unlocked.  Accounts are of two kinds, as in the
-        database: default (derived from the wallet's seed) and watch-only
-        (an imported xpub with a master-key fingerprint and an optional
-        address-schema override, [NewAccountWatchingOnly]);
-      - a chained address is identified with (account number, branch, index);
-        its format and fingerprint are those of the account's kind.  (After a
-        rolled-back account creation that was read back - inside K - a later
-        account can reuse the number with another key; the real address then
-        differs.  Such histories are not generated with watch-only accounts.)
+        watch-only.  Accounts are of two kinds, as in the database: default
+        (derived from the wallet's seed) and watch-only (an imported xpub with
+        a master-key fingerprint and an optional address-schema override,
+        [NewAccountWatchingOnly]);
+      - the manager is locked or unlocked ([Lock]/[Unlock]); the addresses
+        waiting for their private key ([deriveOnUnlock]) are kept as the list
+        of their accounts, which is all [Unlock] uses them for here (it loads
+        these accounts into the cache);
+      - a chained address is identified with (account number, branch, index).
+        (After a rolled-back account creation that was read back - inside K -
+        a later account can reuse the number with another key; the real
+        address then differs.  Such histories are not generated with
+        watch-only accounts.)
+      - an OnCommit closure finds its account entry by number when it runs
+        (the Go closure holds a pointer to the entry it was created with; the
+        two differ only if [InvalidateAccountCache] evicts the entry between
+        the issuance and the commit of one transaction and the entry is loaded
+        again - such transactions are inside K and are not generated);
       - the database is fault-free (write faults are property C10).
     What IS transcribed branch for branch is WHEN each operation touches
     memory relative to its database writes: eagerly, or in the
     [tx.OnCommit] callback, which runs only after a successful commit.
 
-    One fact about the source is a parameter [rb] of the model ("read-back
-    cached"): whether [nextAddresses] puts the address it reads back after
-    writing into the address cache at once ([loadAndCacheAddress],
-    scoped_manager.go:1160 - the pinned code, [rb = true]) or leaves the cache
-    to its OnCommit closure ([rb = false], the repair proposed for finding S4).
-    The theorems hold for both values; the value the source has NOW is
+    Three facts about the source are parameters of the model ([params]); the
+    theorems hold for every value, the values the source has NOW are
     regenerated into Generated/AddrCache.v by lib/extract_c08.py and used by
-    the correspondence check. *)
+    the correspondence check:
+      [p_rb] "read-back cached": [nextAddresses] puts the address it reads
+             back after writing into the address cache at once (finding S4,
+             repaired: false);
+      [p_ee] "extend eager": [extendAddresses] updates the address cache, the
+             next index and the last address at once, before commit (finding
+             S10: true); false = it registers an OnCommit closure like
+             [nextAddresses] does;
+      [p_re] "rename eager": [RenameAccount] updates the cached account name
+             at once, before commit (finding S11: true); false = in an
+             OnCommit closure. *)
 From stdpp Require Import gmap list numbers.
 From Coq Require Import ZArith NArith.
+
+Record params := { p_rb : bool; p_ee : bool; p_re : bool }.
 
 (** ** Identifiers and constants *)
 
@@ -120,12 +143,18 @@ Record acct_info := { ai_name : N; ai_ext : N; ai_int : N; ai_lastext : N; ai_la
 Global Instance acct_info_eq_dec : EqDecision acct_info.
 Proof. solve_decision. Defined.
 
+(** What a managed address object records when it is built: AddrType() and
+    the MasterKeyFingerprint of its DerivationInfo(). *)
+Definition ameta : Type := N * N.
+
 Record mem := {
   m_accts : gmap N acct_info;    (* ScopedKeyManager.acctInfo *)
-  m_addrs : gset addr;           (* ScopedKeyManager.addrs *)
+  m_addrs : gmap addr ameta;     (* ScopedKeyManager.addrs : the cached address objects *)
   m_synced : stamp;              (* syncState.syncedTo *)
   m_start : stamp;               (* syncState.startBlock *)
   m_birthday : Z;                (* Manager.birthday *)
+  m_locked : bool;               (* Manager.locked *)
+  m_pending : list N;            (* ScopedKeyManager.deriveOnUnlock, as the accounts of its entries *)
 }.
 
 Definition set_d_accts (v : _) (d : disk) : disk :=
@@ -153,15 +182,19 @@ Definition set_d_bdayblock (v : _) (d : disk) : disk :=
 Definition set_d_bdayverified (v : _) (d : disk) : disk :=
   {| d_accts := d_accts d; d_nameidx := d_nameidx d; d_ididx := d_ididx d; d_lastacct := d_lastacct d; d_addrs := d_addrs d; d_used := d_used d; d_synced := d_synced d; d_hashes := d_hashes d; d_start := d_start d; d_birthday := d_birthday d; d_bdayblock := d_bdayblock d; d_bdayverified := v; d_schema := d_schema d |}.
 Definition set_m_accts (v : _) (m : mem) : mem :=
-  {| m_accts := v; m_addrs := m_addrs m; m_synced := m_synced m; m_start := m_start m; m_birthday := m_birthday m |}.
+  {| m_accts := v; m_addrs := m_addrs m; m_synced := m_synced m; m_start := m_start m; m_birthday := m_birthday m; m_locked := m_locked m; m_pending := m_pending m |}.
 Definition set_m_addrs (v : _) (m : mem) : mem :=
-  {| m_accts := m_accts m; m_addrs := v; m_synced := m_synced m; m_start := m_start m; m_birthday := m_birthday m |}.
+  {| m_accts := m_accts m; m_addrs := v; m_synced := m_synced m; m_start := m_start m; m_birthday := m_birthday m; m_locked := m_locked m; m_pending := m_pending m |}.
 Definition set_m_synced (v : _) (m : mem) : mem :=
-  {| m_accts := m_accts m; m_addrs := m_addrs m; m_synced := v; m_start := m_start m; m_birthday := m_birthday m |}.
+  {| m_accts := m_accts m; m_addrs := m_addrs m; m_synced := v; m_start := m_start m; m_birthday := m_birthday m; m_locked := m_locked m; m_pending := m_pending m |}.
 Definition set_m_start (v : _) (m : mem) : mem :=
-  {| m_accts := m_accts m; m_addrs := m_addrs m; m_synced := m_synced m; m_start := v; m_birthday := m_birthday m |}.
+  {| m_accts := m_accts m; m_addrs := m_addrs m; m_synced := m_synced m; m_start := v; m_birthday := m_birthday m; m_locked := m_locked m; m_pending := m_pending m |}.
 Definition set_m_birthday (v : _) (m : mem) : mem :=
-  {| m_accts := m_accts m; m_addrs := m_addrs m; m_synced := m_synced m; m_start := m_start m; m_birthday := v |}.
+  {| m_accts := m_accts m; m_addrs := m_addrs m; m_synced := m_synced m; m_start := m_start m; m_birthday := v; m_locked := m_locked m; m_pending := m_pending m |}.
+Definition set_m_locked (v : _) (m : mem) : mem :=
+  {| m_accts := m_accts m; m_addrs := m_addrs m; m_synced := m_synced m; m_start := m_start m; m_birthday := m_birthday m; m_locked := v; m_pending := m_pending m |}.
+Definition set_m_pending (v : _) (m : mem) : mem :=
+  {| m_accts := m_accts m; m_addrs := m_addrs m; m_synced := m_synced m; m_start := m_start m; m_birthday := m_birthday m; m_locked := m_locked m; m_pending := v |}.
 
 Definition next_of (ai : acct_info) (b : bool) : N := if b then ai_int ai else ai_ext ai.
 Definition last_of (ai : acct_info) (b : bool) : N := if b then ai_lastint ai else ai_lastext ai.
@@ -187,19 +220,25 @@ Definition info_of_row (r : acct_row) : acct_info :=
      ai_lastext := N.pred (r_ext r); ai_lastint := N.pred (r_int r); ai_kind := r_kind r |}.
 
 (** [Open]/[loadManager]: empty caches; sync state and birthday read from the
-    database.  The start block is stored without its time stamp. *)
-Definition reopen (d : disk) : mem :=
+    database; the manager is locked until [Unlock].  The start block is stored
+    without its time stamp.  [reopen_as l d]: the freshly opened manager,
+    unlocked unless [l] (an [Unlock] right after [Open] finds nothing waiting
+    and only flips the lock state). *)
+Definition reopen_as (l : bool) (d : disk) : mem :=
   {| m_accts := ∅; m_addrs := ∅; m_synced := d_synced d;
      m_start := {| s_height := (d_start d).1; s_hash := (d_start d).2; s_time := zero_time |};
-     m_birthday := d_birthday d |}.
+     m_birthday := d_birthday d; m_locked := l; m_pending := [] |}.
+(** The manager a restart gives, brought to the lock state the running
+    manager [m] is in. *)
+Definition restart (m : mem) (d : disk) : mem := reopen_as (m_locked m) d.
 
 (** ** Outcomes *)
 
 Inductive err :=
   | EAccountNotFound | EDuplicateAccount | EInvalidAccount | ETooManyAddresses
   | EDuplicateAddress | EBlockNotFound | EAddressNotFound | EBirthdayBlockNotSet
-  | EDatabase | EOther
-  | EPanic.   (* the call panicked (nil account key); nothing was written *)
+  | EDatabase | ELocked | EOther
+  | EPanic.   (* the call panicked; no operation of the model answers so *)
 Global Instance err_eq_dec : EqDecision err.
 Proof. solve_decision. Defined.
 
@@ -210,9 +249,10 @@ Inductive ans :=
   | AAddrs (l : list addr)
   | AAddr (x : addr) (a : N) (internal imported used : bool)
           (ty fp : N)                       (* AddrType(), DerivationInfo().MasterKeyFingerprint *)
-  | ALast (x : addr)
+  | ALast (x : addr) (ty fp : N)            (* the cached last address object, likewise *)
   | AProps (nm ext int imp : N)
-           (kind : option wo)               (* IsWatchOnly, AccountPubKey, MasterKeyFingerprint, AddrSchema *)
+           (kind : option wo)               (* AccountPubKey, MasterKeyFingerprint, AddrSchema of an imported account *)
+           (watch : bool)                   (* IsWatchOnly *)
   | AName (nm : N)
   | AStamp (s : stamp)
   | AHash (h : N)
@@ -224,7 +264,7 @@ Proof. solve_decision. Defined.
 (** ** Operations *)
 
 Inductive query :=
-  | QLookup (x : addr)             (* ScopedKeyManager.Address + ManagedAddress getters + Used *)
+  | QLookup (x : addr)             (* ScopedKeyManager.Address + ManagedAddress getters + Used + DerivationInfo *)
   | QLast (a : N) (b : bool)       (* LastExternalAddress / LastInternalAddress *)
   | QProps (a : N)                 (* AccountProperties *)
   | QLookupName (nm : N)           (* LookupAccount *)
@@ -245,22 +285,15 @@ Inductive op :=
   | OSetSyncedNil                           (* SetSyncedTo(ns, nil) *)
   | OSetBirthday (t : Z)
   | OSetBdayBlock (s : stamp) (v : bool)
-  | OImport (x : addr) (bs : option stamp)  (* ImportPublicKey/PrivateKey/Script *)
+  | OImport (x : addr) (bs : option stamp)  (* ImportPublicKey / ImportPrivateKey / ImportScript *)
+            (priv : bool)                   (* through ImportPrivateKey *)
   | ORead (q : query)
-  | ONewAccountWO (nm : N) (w : wo).        (* NewAccountWatchingOnly(name, xpub, fingerprint, schema) *)
+  | ONewAccountWO (nm : N) (w : wo)         (* NewAccountWatchingOnly(name, xpub, fingerprint, schema) *)
+  | OLock                                   (* Manager.Lock *)
+  | OUnlock                                 (* Manager.Unlock(ns, passphrase) *)
+  | OInvalidate (a : N).                    (* InvalidateAccountCache *)
 
 (** ** Reads.  A read may fill the caches; it never writes the database. *)
-
-(** [loadAccountInfo]: the cache first, else the row (and cache it). *)
-Definition load_acct (d : disk) (m : mem) (a : N) : mem * option acct_info :=
-  match m_accts m !! a with
-  | Some ai => (m, Some ai)
-  | None =>
-      match d_accts d !! a with
-      | Some r => let ai := info_of_row r in (set_m_accts (<[a := ai]> (m_accts m)) m, Some ai)
-      | None => (m, None)
-      end
-  end.
 
 (** [accountAddrType]: the account's schema if it has one, else the scope's. *)
 Definition type_of (sch : N * N) (k : option wo) (b : bool) : N :=
@@ -269,29 +302,38 @@ Definition type_of (sch : N * N) (k : option wo) (b : bool) : N :=
   | _ => if b then sch.2 else sch.1
   end.
 Definition fp_of (k : option wo) : N := match k with Some w => w_fp w | None => 0%N end.
+(** A chained address object built for an account of kind [k]: its type is the
+    account's, its derivation path carries the account's master-key
+    fingerprint (nextAddresses, extendAddresses, chainAddressRowToManaged and
+    loadAccountInfo all fill it in from the account entry). *)
+Definition meta_of_kind (sch : N * N) (k : option wo) (b : bool) : ameta := (type_of sch k b, fp_of k).
+(** An imported key uses the scope's external type; no derivation path. *)
+Definition meta_imp (sch : N * N) (x : addr) : ameta :=
+  match x with ImpScript _ => (script_type, 0%N) | _ => (sch.1, 0%N) end.
 
-(** The kind a chained address object of account [a] is built with: that of
-    the account's cache entry, which [loadAccountInfo] has filled before any
-    such object is built and which is never evicted.  (The row is consulted
-    only if there is no entry - a case that cannot arise; it keeps the
-    function total without an invariant.) *)
-Definition kind_view (d : disk) (m : mem) (a : N) : option wo :=
+Definition has_priv (k : option wo) : bool := match k with None => true | Some _ => false end.
+
+(** An address object built from a public key - while the manager is locked -
+    of an account that has a private key joins [deriveOnUnlock]. *)
+Definition note_pending (k : option wo) (a : N) (m : mem) : mem :=
+  if m_locked m && has_priv k then set_m_pending (m_pending m ++ [a]) m else m.
+
+(** [loadAccountInfo]: the cache first, else the row (and cache it, with its
+    two last addresses). *)
+Definition load_acct (d : disk) (m : mem) (a : N) : mem * option acct_info :=
   match m_accts m !! a with
-  | Some ai => ai_kind ai
-  | None => match d_accts d !! a with Some r => r_kind r | None => None end
+  | Some ai => (m, Some ai)
+  | None =>
+      match d_accts d !! a with
+      | Some r => let ai := info_of_row r in
+                  (note_pending (r_kind r) a (set_m_accts (<[a := ai]> (m_accts m)) m), Some ai)
+      | None => (m, None)
+      end
   end.
 
-(** A managed address as its getters report it; imported keys use the scope's
-    external type. *)
-Definition found (d : disk) (m : mem) (x : addr) : ans :=
-  let used := bool_decide (x ∈ d_used d) in
-  match x with
-  | Chain a b _ =>
-      let k := kind_view d m a in
-      AAddr x a b false used (type_of (d_schema d) k b) (fp_of k)
-  | ImpKey _ => AAddr x imported_acct false true used (d_schema d).1 0
-  | ImpScript _ => AAddr x imported_acct false true used script_type 0
-  end.
+(** A managed address as its getters report it. *)
+Definition found (d : disk) (x : addr) (mt : ameta) : ans :=
+  AAddr x (addr_acct x) (addr_internal x) (addr_imported x) (bool_decide (x ∈ d_used d)) mt.1 mt.2.
 
 Definition imported_count (d : disk) : N :=
   N.of_nat (size (filter (fun x => addr_imported x = true) (d_addrs d))).
@@ -301,31 +343,41 @@ Definition read (q : query) (d : disk) (m : mem) : mem * ans :=
   | QLookup x =>
       (* Address: the cache, else loadAndCacheAddress; a chained row is turned
          into a managed address through loadAccountInfo (chainAddressRowToManaged) *)
-      if bool_decide (x ∈ m_addrs m) then (m, found d m x)
-      else if bool_decide (x ∈ d_addrs d) then
-        match x with
-        | Chain a _ _ =>
-            let '(m1, o) := load_acct d m a in
-            match o with
-            | Some _ => (set_m_addrs ({[x]} ∪ m_addrs m1) m1, found d m1 x)
-            | None => (m1, AErr EAccountNotFound)
+      match m_addrs m !! x with
+      | Some mt => (m, found d x mt)
+      | None =>
+          if bool_decide (x ∈ d_addrs d) then
+            match x with
+            | Chain a b _ =>
+                let '(m1, o) := load_acct d m a in
+                match o with
+                | Some ai =>
+                    let mt := meta_of_kind (d_schema d) (ai_kind ai) b in
+                    (note_pending (ai_kind ai) a (set_m_addrs (<[x := mt]> (m_addrs m1)) m1), found d x mt)
+                | None => (m1, AErr EAccountNotFound)
+                end
+            | _ => let mt := meta_imp (d_schema d) x in
+                   (set_m_addrs (<[x := mt]> (m_addrs m)) m, found d x mt)
             end
-        | _ => (set_m_addrs ({[x]} ∪ m_addrs m) m, found d m x)
-        end
-      else (m, AErr EAddressNotFound)
+          else (m, AErr EAddressNotFound)
+      end
   | QLast a b =>
       let '(m1, o) := load_acct d m a in
       match o with
-      | Some ai => (m1, if (0 <? next_of ai b)%N then ALast (Chain a b (last_of ai b))
+      | Some ai => (m1, if (0 <? next_of ai b)%N
+                        then let mt := meta_of_kind (d_schema d) (ai_kind ai) b in
+                             ALast (Chain a b (last_of ai b)) mt.1 mt.2
                         else AErr EAddressNotFound)
       | None => (m1, AErr EAccountNotFound)
       end
   | QProps a =>
-      if (a =? imported_acct)%N then (m, AProps name_imported 0 0 (imported_count d) None)
+      if (a =? imported_acct)%N then (m, AProps name_imported 0 0 (imported_count d) None false)
       else
         let '(m1, o) := load_acct d m a in
         match o with
-        | Some ai => (m1, AProps (ai_name ai) (ai_ext ai) (ai_int ai) 0 (ai_kind ai))
+        | Some ai => (m1, AProps (ai_name ai) (ai_ext ai) (ai_int ai) 0 (ai_kind ai)
+                            (* IsWatchOnly: acctKeyPriv == nil - no private key, or locked *)
+                            (negb (has_priv (ai_kind ai)) || m_locked m))
         | None => (m1, AErr EAccountNotFound)
         end
   | QLookupName nm =>
@@ -350,26 +402,45 @@ Definition observe (m : mem) (d : disk) (q : query) : ans := (read q d m).2.
 (** ** Database transactions *)
 
 (** An [OnCommit] closure registered by [nextAddresses]
-    (scoped_manager.go:1189-1219), as data. *)
+    (scoped_manager.go, [onCommit := func() ...]), as data: the address
+    objects it will cache, the index and last address it will set, whether the
+    account has a private key (the objects then join [deriveOnUnlock] if the
+    manager is locked when the closure runs). *)
 Record callback := {
   cb_acct : N; cb_branch : bool;
   cb_next : N;                    (* acctInfo.next{External,Internal}Index = nextIndex *)
   cb_last : N;                    (* acctInfo.last{External,Internal}Addr = last derived *)
-  cb_addrs : list addr;           (* s.addrs[...] = ma *)
+  cb_addrs : list (addr * ameta); (* s.addrs[...] = ma *)
+  cb_priv : bool;                 (* !watchOnly *)
 }.
 
+Definition cache_all (l : list (addr * ameta)) (m : mem) : mem :=
+  set_m_addrs (list_to_map l ∪ m_addrs m) m.
+
 Definition run_cb (c : callback) (m : mem) : mem :=
-  let m1 := set_m_addrs (list_to_set (cb_addrs c) ∪ m_addrs m) m in
-  match m_accts m1 !! cb_acct c with
-  | Some ai => set_m_accts (<[cb_acct c := set_branch (cb_branch c) (cb_next c) (cb_last c) ai]> (m_accts m1)) m1
-  | None => m1
+  let m1 := cache_all (cb_addrs c) m in
+  let m2 := if m_locked m && cb_priv c then set_m_pending (m_pending m1 ++ [cb_acct c]) m1 else m1 in
+  match m_accts m2 !! cb_acct c with
+  | Some ai => set_m_accts (<[cb_acct c := set_branch (cb_branch c) (cb_next c) (cb_last c) ai]> (m_accts m2)) m2
+  | None => m2
   end.
 
-Definition settle (cbs : list callback) (m : mem) : mem := fold_left (fun m c => run_cb c m) cbs m.
+(** The closure a [RenameAccount] that defers its memory update registers
+    ([p_re = false]): (account, new name). *)
+Definition run_ncb (c : N * N) (m : mem) : mem :=
+  match m_accts m !! c.1 with
+  | Some ai => set_m_accts (<[c.1 := set_name c.2 ai]> (m_accts m)) m
+  | None => m
+  end.
+
+(** The two kinds of closure touch different fields, so their relative order
+    does not matter; each kind runs in registration order. *)
+Definition settle (cbs : list callback) (ncbs : list (N * N)) (m : mem) : mem :=
+  fold_left (fun m c => run_ncb c m) ncbs (fold_left (fun m c => run_cb c m) cbs m).
 
 (** State inside an open read/write transaction: the transaction's view of the
     database, memory (shared with everybody), the registered callbacks. *)
-Record txst := { t_disk : disk; t_mem : mem; t_cbs : list callback }.
+Record txst := { t_disk : disk; t_mem : mem; t_cbs : list callback; t_ncbs : list (N * N) }.
 
 Fixpoint range_from (i : N) (n : nat) : list N :=
   match n with O => [] | S k => i :: range_from (N.succ i) k end.
@@ -385,6 +456,25 @@ Definition put_chain (a : N) (b : bool) (i cnt : N) (d : disk) : disk + disk :=
   | None => inr (set_d_addrs ({[Chain a b i]} ∪ d_addrs d) d)
   end.
 
+(** The body shared by [nextAddresses] and by an [extendAddresses] that defers
+    its memory update: derive [cnt] addresses from index [i] for the account
+    entry [ai], write their rows, (if [rbf]: read them back into the cache,)
+    register the closure. *)
+Definition issue (rbf : bool) (a : N) (b : bool) (i cnt : N) (ai : acct_info)
+    (ok : list addr -> ans) (t : txst) : txst * ans :=
+  let d := t_disk t in
+  match put_chain a b i cnt d with
+  | inr d' => ({| t_disk := d'; t_mem := t_mem t; t_cbs := t_cbs t; t_ncbs := t_ncbs t |}, AErr EDatabase)
+  | inl d' =>
+      let mt := meta_of_kind (d_schema d) (ai_kind ai) b in
+      let xs := Chain a b <$> range_from i (N.to_nat cnt) in
+      let ents := (fun x => (x, mt)) <$> xs in
+      let m2 := if rbf then note_pending (ai_kind ai) a (cache_all ents (t_mem t)) else t_mem t in
+      let c := {| cb_acct := a; cb_branch := b; cb_next := (i + cnt)%N;
+                  cb_last := N.pred (i + cnt); cb_addrs := ents; cb_priv := has_priv (ai_kind ai) |} in
+      ({| t_disk := d'; t_mem := m2; t_cbs := t_cbs t ++ [c]; t_ncbs := t_ncbs t |}, ok xs)
+  end.
+
 (** [PutSyncedTo] followed by the memory update of [SetSyncedTo]. *)
 Definition set_synced (s : stamp) (t : txst) : txst * ans :=
   let d := t_disk t in
@@ -396,7 +486,9 @@ Definition set_synced (s : stamp) (t : txst) : txst * ans :=
     let hs := if (0 <? h - max_reorg_depth)%Z then delete (h - max_reorg_depth)%Z hs else hs in
     let d' := set_d_synced {| s_height := h; s_hash := s_hash s; s_time := wrap32 (s_time s) |}
                 (set_d_hashes hs d) in
-    ({| t_disk := d'; t_mem := set_m_synced s (t_mem t); t_cbs := t_cbs t |}, AOk).
+    ({| t_disk := d'; t_mem := set_m_synced s (t_mem t); t_cbs := t_cbs t; t_ncbs := t_ncbs t |}, AOk).
+
+Definition bad_name (nm : N) : bool := (nm =? name_empty)%N || (nm =? name_imported)%N.
 
 (** [newAccount] / [newAccountWatchingOnly]: the next account number, name
     validation, duplicate test, row and both indices, last account - database
@@ -404,14 +496,14 @@ Definition set_synced (s : stamp) (t : txst) : txst * ans :=
 Definition new_account (k : option wo) (nm : N) (t : txst) : txst * ans :=
   let d := t_disk t in
   let n := (d_lastacct d + 1)%N in
-  if (nm =? name_empty)%N || (nm =? name_imported)%N then (t, AErr EInvalidAccount)
+  if bad_name nm then (t, AErr EInvalidAccount)
   else if bool_decide (is_Some (d_nameidx d !! nm)) then (t, AErr EDuplicateAccount)
   else
     let d' := set_d_lastacct n
                (set_d_nameidx (<[nm := n]> (d_nameidx d))
                  (set_d_ididx (<[n := nm]> (d_ididx d))
                    (set_d_accts (<[n := {| r_name := nm; r_ext := 0; r_int := 0; r_kind := k |}]> (d_accts d)) d))) in
-    ({| t_disk := d'; t_mem := t_mem t; t_cbs := t_cbs t |}, AAcct n).
+    ({| t_disk := d'; t_mem := t_mem t; t_cbs := t_cbs t; t_ncbs := t_ncbs t |}, AAcct n).
 
 (** The row update of [RenameAccount] (one arm of its type switch per kind;
     both re-put the row with the new name and leave everything else). *)
@@ -426,17 +518,34 @@ Definition rename_switch (a nm : N) (r : acct_row) (d : disk) : disk :=
   end.
 Global Arguments rename_switch : simpl never.
 
-Definition step (rb : bool) (o : op) (t : txst) : txst * ans :=
+(** [Unlock]'s first loop: the accounts of the waiting addresses are loaded
+    (they may have been evicted); the first one whose row is gone fails the
+    unlock. *)
+Fixpoint load_all (d : disk) (m : mem) (l : list N) : mem * bool :=
+  match l with
+  | [] => (m, true)
+  | a :: r => let '(m1, o) := load_acct d m a in
+              match o with Some _ => load_all d m1 r | None => (m1, false) end
+  end.
+
+Definition import_needs_unlock (x : addr) (priv : bool) : bool :=
+  match x with ImpScript _ => true | _ => priv end.
+
+Definition step (P : params) (o : op) (t : txst) : txst * ans :=
   let d := t_disk t in
   let m := t_mem t in
+  let with_mem m' := {| t_disk := d; t_mem := m'; t_cbs := t_cbs t; t_ncbs := t_ncbs t |} in
   match o with
-  | ONewAccount nm => new_account None nm t
+  | ONewAccount nm =>
+      (* NewAccount needs the coin-type private key *)
+      if m_locked m then (t, AErr ELocked) else new_account None nm t
   | ONewAccountWO nm w => new_account (Some w) nm t
   | ORename a nm =>
-      (* RenameAccount: rows first, then the cached name - before commit *)
+      (* RenameAccount: rows first, then the cached name - at once ([p_re]) or
+         in an OnCommit closure *)
       if (a =? imported_acct)%N then (t, AErr EInvalidAccount)
       else if bool_decide (is_Some (d_nameidx d !! nm)) then (t, AErr EDuplicateAccount)
-      else if (nm =? name_empty)%N || (nm =? name_imported)%N then (t, AErr EInvalidAccount)
+      else if bad_name nm then (t, AErr EInvalidAccount)
       else
         match d_accts d !! a with
         | None => (t, AErr EAccountNotFound)
@@ -444,95 +553,126 @@ Definition step (rb : bool) (o : op) (t : txst) : txst * ans :=
             (* type switch on the row kind; the cached name is updated after
                the switch, for both kinds *)
             let d' := rename_switch a nm r d in
-            let m' := match m_accts m !! a with
-                      | Some ai => set_m_accts (<[a := set_name nm ai]> (m_accts m)) m
-                      | None => m end in
-            ({| t_disk := d'; t_mem := m'; t_cbs := t_cbs t |}, AOk)
+            if p_re P then
+              let m' := match m_accts m !! a with
+                        | Some ai => set_m_accts (<[a := set_name nm ai]> (m_accts m)) m
+                        | None => m end in
+              ({| t_disk := d'; t_mem := m'; t_cbs := t_cbs t; t_ncbs := t_ncbs t |}, AOk)
+            else
+              ({| t_disk := d'; t_mem := m; t_cbs := t_cbs t; t_ncbs := t_ncbs t ++ [(a, nm)] |}, AOk)
         end
   | ONext a b n =>
       (* nextAddresses: rows written; every written address read back - INTO THE
-         CACHE when [rb] (loadAndCacheAddress, line 1160); indices, last address
-         and (again) the cache entries in the OnCommit closure *)
+         CACHE when [p_rb]; indices, last address and the cache entries in the
+         OnCommit closure *)
       let '(m1, o) := load_acct d m a in
       match o with
-      | None => ({| t_disk := d; t_mem := m1; t_cbs := t_cbs t |}, AErr EAccountNotFound)
+      | None => (with_mem m1, AErr EAccountNotFound)
       | Some ai =>
           let i := next_of ai b in
           if (max_addrs <? n)%N || (max_addrs <? i + n)%N
-          then ({| t_disk := d; t_mem := m1; t_cbs := t_cbs t |}, AErr ETooManyAddresses)
+          then (with_mem m1, AErr ETooManyAddresses)
           else if (n =? 0)%N
-          then ({| t_disk := d; t_mem := m1; t_cbs := t_cbs t |}, AErr EOther) (* the Go closure would panic at commit; never generated *)
-          else
-            match put_chain a b i n d with
-            | inr d' => ({| t_disk := d'; t_mem := m1; t_cbs := t_cbs t |}, AErr EDatabase)
-            | inl d' =>
-                let xs := Chain a b <$> range_from i (N.to_nat n) in
-                let m2 := if rb then set_m_addrs (list_to_set xs ∪ m_addrs m1) m1 else m1 in
-                let c := {| cb_acct := a; cb_branch := b; cb_next := (i + n)%N;
-                            cb_last := N.pred (i + n); cb_addrs := xs |} in
-                ({| t_disk := d'; t_mem := m2; t_cbs := t_cbs t ++ [c] |}, AAddrs xs)
-            end
+          then (with_mem m1, AErr EOther) (* the Go closure would panic at commit; never generated *)
+          else issue (p_rb P) a b i n ai AAddrs (with_mem m1)
       end
   | OExtend a b last =>
       (* extendAddresses: rows written, then cache, indices and last address
-         updated at once - before commit *)
+         updated - at once ([p_ee]) or in an OnCommit closure.  Default and
+         imported accounts alike (an imported account derives from its public
+         key). *)
       let '(m1, o) := load_acct d m a in
       match o with
-      | None => ({| t_disk := d; t_mem := m1; t_cbs := t_cbs t |}, AErr EAccountNotFound)
+      | None => (with_mem m1, AErr EAccountNotFound)
       | Some ai =>
           let i := next_of ai b in
-          if (last <? i)%N then ({| t_disk := d; t_mem := m1; t_cbs := t_cbs t |}, AOk)
+          if (last <? i)%N then (with_mem m1, AOk)
           else if (max_addrs <? last)%N
-          then ({| t_disk := d; t_mem := m1; t_cbs := t_cbs t |}, AErr ETooManyAddresses)
-          else if bool_decide (is_Some (ai_kind ai))
-          then (* inverted watch-only test (scoped_manager.go: acctKeyPriv != nil): while
-                  unlocked the nil private key of a watch-only account is dereferenced *)
-               ({| t_disk := d; t_mem := m1; t_cbs := t_cbs t |}, AErr EPanic)
+          then (with_mem m1, AErr ETooManyAddresses)
           else
             let cnt := (last - i + 1)%N in
-            match put_chain a b i cnt d with
-            | inr d' => ({| t_disk := d'; t_mem := m1; t_cbs := t_cbs t |}, AErr EDatabase)
-            | inl d' =>
-                let xs := Chain a b <$> range_from i (N.to_nat cnt) in
-                let m2 := set_m_addrs (list_to_set xs ∪ m_addrs m1) m1 in
-                let m3 := set_m_accts (<[a := set_branch b (last + 1) last ai]> (m_accts m2)) m2 in
-                ({| t_disk := d'; t_mem := m3; t_cbs := t_cbs t |}, AOk)
-            end
+            if p_ee P then
+              match put_chain a b i cnt d with
+              | inr d' => ({| t_disk := d'; t_mem := m1; t_cbs := t_cbs t; t_ncbs := t_ncbs t |}, AErr EDatabase)
+              | inl d' =>
+                  let mt := meta_of_kind (d_schema d) (ai_kind ai) b in
+                  let xs := Chain a b <$> range_from i (N.to_nat cnt) in
+                  let m2 := note_pending (ai_kind ai) a (cache_all ((fun x => (x, mt)) <$> xs) m1) in
+                  let m3 := set_m_accts (<[a := set_branch b (last + 1) last ai]> (m_accts m2)) m2 in
+                  ({| t_disk := d'; t_mem := m3; t_cbs := t_cbs t; t_ncbs := t_ncbs t |}, AOk)
+              end
+            else issue false a b i cnt ai (fun _ => AOk) (with_mem m1)
       end
   | OMarkUsed x =>
       (* MarkUsed: used flag in the database, cache entry evicted *)
       ({| t_disk := set_d_used ({[x]} ∪ d_used d) d;
-          t_mem := set_m_addrs (m_addrs m ∖ {[x]}) m; t_cbs := t_cbs t |}, AOk)
+          t_mem := set_m_addrs (delete x (m_addrs m)) m; t_cbs := t_cbs t; t_ncbs := t_ncbs t |}, AOk)
   | OSetSynced s => set_synced s t
   | OSetSyncedNil => set_synced (m_start m) t
   | OSetBirthday tm =>
       (* SetBirthday assigns m.birthday even before the write *)
-      ({| t_disk := set_d_birthday tm d; t_mem := set_m_birthday tm m; t_cbs := t_cbs t |}, AOk)
+      ({| t_disk := set_d_birthday tm d; t_mem := set_m_birthday tm m; t_cbs := t_cbs t; t_ncbs := t_ncbs t |}, AOk)
   | OSetBdayBlock s v =>
-      ({| t_disk := set_d_bdayverified v (set_d_bdayblock (Some s) d); t_mem := m; t_cbs := t_cbs t |}, AOk)
-  | OImport x bs =>
-      (* importPublicKey / importScriptAddress: duplicate test against cache
-         OR database; row written; cache entry and start block updated at once *)
+      ({| t_disk := set_d_bdayverified v (set_d_bdayblock (Some s) d); t_mem := m; t_cbs := t_cbs t; t_ncbs := t_ncbs t |}, AOk)
+  | OImport x bs priv =>
+      (* importPublicKey / importScriptAddress: a private key or a script needs
+         the manager unlocked; duplicate test against cache OR database; row
+         written; cache entry and start block updated at once *)
       if negb (addr_imported x) then (t, AErr EOther)
-      else if bool_decide (x ∈ m_addrs m) || bool_decide (x ∈ d_addrs d) then (t, AErr EDuplicateAddress)
+      else if import_needs_unlock x priv && m_locked m then (t, AErr ELocked)
+      else if bool_decide (is_Some (m_addrs m !! x)) || bool_decide (x ∈ d_addrs d) then (t, AErr EDuplicateAddress)
       else
         let upd := match bs with Some s => (s_height s <? s_height (m_start m))%Z | None => false end in
         let d1 := set_d_addrs ({[x]} ∪ d_addrs d) d in
-        let m1 := set_m_addrs ({[x]} ∪ m_addrs m) m in
+        let m1 := set_m_addrs (<[x := meta_imp (d_schema d) x]> (m_addrs m)) m in
         match bs, upd with
         | Some s, true =>
-            ({| t_disk := set_d_start (s_height s, s_hash s) d1; t_mem := set_m_start s m1; t_cbs := t_cbs t |}, AAddrs [x])
-        | _, _ => ({| t_disk := d1; t_mem := m1; t_cbs := t_cbs t |}, AAddrs [x])
+            ({| t_disk := set_d_start (s_height s, s_hash s) d1; t_mem := set_m_start s m1; t_cbs := t_cbs t; t_ncbs := t_ncbs t |}, AAddrs [x])
+        | _, _ => ({| t_disk := d1; t_mem := m1; t_cbs := t_cbs t; t_ncbs := t_ncbs t |}, AAddrs [x])
         end
   | ORead q =>
-      let '(m', r) := read q d m in
-      ({| t_disk := d; t_mem := m'; t_cbs := t_cbs t |}, r)
+      let '(m', r) := read q d m in (with_mem m', r)
+  | OLock =>
+      (* Lock: private keys wiped; nothing the queries report is dropped *)
+      if m_locked m then (t, AErr ELocked) else (with_mem (set_m_locked true m), AOk)
+  | OUnlock =>
+      if negb (m_locked m) then (t, AOk)
+      else
+        let '(m1, ok) := load_all d m (m_pending m) in
+        if ok then (with_mem (set_m_pending [] (set_m_locked false m1)), AOk)
+        else (with_mem m1, AErr EAccountNotFound)    (* stays locked *)
+  | OInvalidate a =>
+      (* InvalidateAccountCache: delete(s.acctInfo, account) *)
+      (with_mem (set_m_accts (delete a (m_accts m)) m), AOk)
   end.
 
-Fixpoint run_ops (rb : bool) (ops : list op) (t : txst) : txst * list ans :=
+(** Every error whose guard fires for the operation in this state.  Which of
+    several failing guards reports is an accident of their order in the
+    source; the state is untouched whichever does, so the correspondence
+    accepts any of them (none of the theorems depends on the choice). *)
+Definition alts (o : op) (t : txst) : list err :=
+  let d := t_disk t in
+  let named nm := (if bad_name nm then [EInvalidAccount] else []) ++
+                  (if bool_decide (is_Some (d_nameidx d !! nm)) then [EDuplicateAccount] else []) in
+  match o with
+  | ORename a nm =>
+      (if (a =? imported_acct)%N then [EInvalidAccount] else []) ++ named nm ++
+      (if bool_decide (d_accts d !! a = None) then [EAccountNotFound] else [])
+  | ONewAccount nm => (if m_locked (t_mem t) then [ELocked] else []) ++ named nm
+  | ONewAccountWO nm _ => named nm
+  | _ => []
+  end.
+
+Fixpoint run_ops (P : params) (ops : list op) (t : txst) : txst * list ans :=
   match ops with
   | [] => (t, [])
-  | o :: r => let '(t1, x) := step rb o t in let '(t2, xs) := run_ops rb r t1 in (t2, x :: xs)
+  | o :: r => let '(t1, x) := step P o t in let '(t2, xs) := run_ops P r t1 in (t2, x :: xs)
+  end.
+
+Fixpoint ops_alts (P : params) (ops : list op) (t : txst) : list (list err) :=
+  match ops with
+  | [] => []
+  | o :: r => alts o t :: ops_alts P r (step P o t).1
   end.
 
 Fixpoint run_queries (qs : list query) (d : disk) (m : mem) : mem * list ans :=
@@ -543,9 +683,9 @@ Fixpoint run_queries (qs : list query) (d : disk) (m : mem) : mem * list ans :=
 
 (** How a read/write transaction ends: [walletdb.Update] commits when the
     closure returns nil; rolls back when it returns an error (any caller error,
-    or [walletdb.ErrDryRunRollBack] from wallet.txToOutputs); a failing commit
-    persists nothing.  bbolt runs the OnCommit handlers only after a successful
-    commit. *)
+    or [walletdb.ErrDryRunRollBack] from wallet.txToOutputs and
+    wallet.ImportAccountDryRun); a failing commit persists nothing.  bbolt
+    runs the OnCommit handlers only after a successful commit. *)
 Inductive fate := Commit | AbortCaller | AbortDryRun | CommitFails.
 Global Instance fate_eq_dec : EqDecision fate.
 Proof. solve_decision. Defined.
@@ -560,26 +700,29 @@ Record txn := {
 
 Definition end_tx (f : fate) (s : state) (t : txst) : state :=
   match f with
-  | Commit => {| disk_of := t_disk t; mem_of := settle (t_cbs t) (t_mem t) |}
+  | Commit => {| disk_of := t_disk t; mem_of := settle (t_cbs t) (t_ncbs t) (t_mem t) |}
   | _ => {| disk_of := disk_of s; mem_of := t_mem t |}
   end.
 
-Definition run_tx (rb : bool) (x : txn) (s : state) : state * (list ans * list ans) :=
-  let '(t, outs) := run_ops rb (tx_ops x) {| t_disk := disk_of s; t_mem := mem_of s; t_cbs := [] |} in
+Definition begin_tx (s : state) : txst :=
+  {| t_disk := disk_of s; t_mem := mem_of s; t_cbs := []; t_ncbs := [] |}.
+
+Definition run_tx (P : params) (x : txn) (s : state) : state * (list ans * list ans) :=
+  let '(t, outs) := run_ops P (tx_ops x) (begin_tx s) in
   let s1 := end_tx (tx_fate x) s t in
   let '(m2, qa) := run_queries (tx_queries x) (disk_of s1) (mem_of s1) in
   ({| disk_of := disk_of s1; mem_of := m2 |}, (outs, qa)).
 
-Fixpoint run_hist (rb : bool) (h : list txn) (s : state) : state * list (list ans * list ans) :=
+Fixpoint run_hist (P : params) (h : list txn) (s : state) : state * list (list ans * list ans) :=
   match h with
   | [] => (s, [])
-  | x :: r => let '(s1, o) := run_tx rb x s in let '(s2, os) := run_hist rb r s1 in (s2, o :: os)
+  | x :: r => let '(s1, o) := run_tx P x s in let '(s2, os) := run_hist P r s1 in (s2, o :: os)
   end.
 
-Definition final (rb : bool) (h : list txn) (s : state) : state := (run_hist rb h s).1.
+Definition final (P : params) (h : list txn) (s : state) : state := (run_hist P h s).1.
 
-(** The manager as a wallet holds it after start-up. *)
-Definition opened (d : disk) : state := {| disk_of := d; mem_of := reopen d |}.
+(** The manager as a wallet holds it after start-up (opened and unlocked). *)
+Definition opened (d : disk) : state := {| disk_of := d; mem_of := reopen_as false d |}.
 
 (** The database [waddrmgr.Create] leaves for one scope: the default account,
     the reserved imported account in the two indices, synced to genesis. *)
@@ -598,77 +741,102 @@ Definition created (sch : N * N) (genesis_hash : N) (genesis_time birthday : Z) 
 (** ** The trigger patterns K (decidable, on the history alone)
 
     An ABORTED transaction diverges memory from the database when it holds an
-    operation that updates memory before commit: rename, set-synced-to,
-    set-birthday, extend, import, and - when [rb], through the read-back at
-    line 1160 - address issuance; or when it creates an account and then reads
-    it back, or (when not [rb]) issues an address and then looks an address up:
-    the lazily loaded cache entry is built from the uncommitted row.
+    operation that updates memory before commit: set-synced-to, set-birthday,
+    import, and - depending on the source, [params] - rename ([p_re]), extend
+    ([p_ee]), address issuance ([p_rb]); or when it leaves in the account
+    cache an entry built from an uncommitted row: it changed account rows (new
+    account; a rename that defers its memory update; an eviction, after which
+    the rows of the evicted accounts may have been changed by this
+    transaction) - the transaction is then "armed" - and afterwards loaded an
+    account (properties, last address, issuance, extension) that it did not
+    evict again before it ended ([InvalidateAccountCache], as
+    wallet.ImportAccountDryRun does); or when it looks an address up after
+    arming or after writing address rows (the lookup caches from the
+    uncommitted rows).
     A COMMITTED transaction diverges when it extends a branch after issuing
-    from it (the OnCommit closure then overwrites the extended index with its
-    stale value), and [SetSyncedTo(nil)] copies a start block whose time stamp
-    the database does not hold.
+    from it while extension is eager ([p_ee]: the OnCommit closure then
+    overwrites the extended index with its stale value), and
+    [SetSyncedTo(nil)] copies a start block whose time stamp the database does
+    not hold.  Evicting an account for which a closure is pending is counted
+    into K (see the header: closure and entry identity).
 
     [k_idx] is the part of K that can disturb the next indices. *)
 
-Definition loads_cache (o : op) : bool :=
-  match o with
-  | ORead (QLookup _) | ORead (QLast _ _) | ORead (QProps _) => true
-  | _ => false
-  end.
+Definition taint_if (armed : bool) (a : N) (taint : list N) : list N :=
+  if armed then a :: taint else taint.
+Definition rm_taint (a : N) (taint : list N) : list N := filter (fun x => negb (x =? a)%N) taint.
+Definition tainted (taint : list N) : bool := match taint with [] => false | _ => true end.
 
-(** [armed]: an account was created earlier in this transaction;
-    [issued]: addresses were issued earlier in this transaction. *)
-Fixpoint abort_k (rb armed issued : bool) (ops : list op) : bool :=
+(** [armed]: this transaction changed account rows (see above);
+    [issued]: it wrote address rows;
+    [taint]: accounts loaded since it was armed and not evicted since. *)
+Fixpoint abort_k (P : params) (armed issued : bool) (taint : list N) (ops : list op) : bool :=
   match ops with
-  | [] => false
+  | [] => tainted taint
   | o :: r =>
       match o with
-      | ORename _ _ | OExtend _ _ _ | OSetSynced _ | OSetSyncedNil
-      | OSetBirthday _ | OImport _ _ => true
-      | ONext _ _ _ => rb || armed || abort_k rb armed true r
-      | ONewAccount _ | ONewAccountWO _ _ => abort_k rb true issued r
-      | ORead (QLookup _) => issued || armed || abort_k rb armed issued r
-      | _ => (armed && loads_cache o) || abort_k rb armed issued r
+      | OSetSynced _ | OSetSyncedNil | OSetBirthday _ | OImport _ _ _ => true
+      | ORename _ _ => p_re P || abort_k P true issued taint r
+      | OExtend a _ _ => p_ee P || abort_k P armed true (taint_if armed a taint) r
+      | ONext a _ _ => p_rb P || abort_k P armed true (taint_if armed a taint) r
+      | ONewAccount _ | ONewAccountWO _ _ => abort_k P true issued taint r
+      | ORead (QLookup _) => issued || armed || abort_k P armed issued taint r
+      | ORead (QLast a _) => abort_k P armed issued (taint_if armed a taint) r
+      | ORead (QProps a) =>
+          abort_k P armed issued (if (a =? imported_acct)%N then taint else taint_if armed a taint) r
+      | OUnlock => armed || abort_k P armed issued taint r
+      | OInvalidate a => abort_k P true issued (rm_taint a taint) r
+      | _ => abort_k P armed issued taint r
       end
   end.
 
-Fixpoint abort_k_idx (armed : bool) (ops : list op) : bool :=
+Fixpoint abort_k_idx (P : params) (armed : bool) (taint : list N) (ops : list op) : bool :=
   match ops with
-  | [] => false
+  | [] => tainted taint
   | o :: r =>
       match o with
-      | OExtend _ _ _ => true
-      | ONewAccount _ | ONewAccountWO _ _ => abort_k_idx true r
-      | ONext _ _ _ => armed || abort_k_idx armed r
-      | _ => (armed && loads_cache o) || abort_k_idx armed r
+      | OExtend a _ _ => p_ee P || abort_k_idx P armed (taint_if armed a taint) r
+      | ONext a _ _ => abort_k_idx P armed (taint_if armed a taint) r
+      | ONewAccount _ | ONewAccountWO _ _ => abort_k_idx P true taint r
+      | ORead (QLookup (Chain a _ _)) => abort_k_idx P armed (taint_if armed a taint) r
+      | ORead (QLast a _) => abort_k_idx P armed (taint_if armed a taint) r
+      | ORead (QProps a) =>
+          abort_k_idx P armed (if (a =? imported_acct)%N then taint else taint_if armed a taint) r
+      | OUnlock => armed || abort_k_idx P armed taint r
+      | OInvalidate a => abort_k_idx P true (rm_taint a taint) r
+      | _ => abort_k_idx P armed taint r
       end
   end.
 
-Fixpoint commit_k_idx (pend : list (N * bool)) (ops : list op) : bool :=
+(** [pend]: the (account, branch) pairs a closure is pending for. *)
+Fixpoint commit_k_idx (P : params) (pend : list (N * bool)) (ops : list op) : bool :=
   match ops with
   | [] => false
-  | ONext a b _ :: r => commit_k_idx ((a, b) :: pend) r
-  | OExtend a b _ :: r => bool_decide ((a, b) ∈ pend) || commit_k_idx pend r
-  | _ :: r => commit_k_idx pend r
+  | ONext a b _ :: r => commit_k_idx P ((a, b) :: pend) r
+  | OExtend a b _ :: r =>
+      if p_ee P then bool_decide ((a, b) ∈ pend) || commit_k_idx P pend r
+      else commit_k_idx P ((a, b) :: pend) r
+  | OInvalidate a :: r => existsb (fun p => (p.1 =? a)%N) pend || commit_k_idx P pend r
+  | _ :: r => commit_k_idx P pend r
   end.
 
 Definition has_synced_nil (ops : list op) : bool :=
   existsb (fun o => match o with OSetSyncedNil => true | _ => false end) ops.
 
-Definition tx_k (rb : bool) (x : txn) : bool :=
+Definition tx_k (P : params) (x : txn) : bool :=
   match tx_fate x with
-  | Commit => commit_k_idx [] (tx_ops x) || has_synced_nil (tx_ops x)
-  | _ => abort_k rb false false (tx_ops x)
+  | Commit => commit_k_idx P [] (tx_ops x) || has_synced_nil (tx_ops x)
+  | _ => abort_k P false false [] (tx_ops x)
   end.
 
-Definition tx_k_idx (x : txn) : bool :=
+Definition tx_k_idx (P : params) (x : txn) : bool :=
   match tx_fate x with
-  | Commit => commit_k_idx [] (tx_ops x)
-  | _ => abort_k_idx false (tx_ops x)
+  | Commit => commit_k_idx P [] (tx_ops x)
+  | _ => abort_k_idx P false [] (tx_ops x)
   end.
 
-Definition in_K (rb : bool) (h : list txn) : bool := existsb (tx_k rb) h.
-Definition in_K_idx (h : list txn) : bool := existsb tx_k_idx h.
+Definition in_K (P : params) (h : list txn) : bool := existsb (tx_k P) h.
+Definition in_K_idx (P : params) (h : list txn) : bool := existsb (tx_k_idx P) h.
 
 (** Time stamps handed to SetSyncedTo fit the 32 bits the database keeps
     (every block time does until 2106). *)
